@@ -80,6 +80,9 @@ func parseValue(s string) (Value, error) {
 			continue
 		}
 		if strings.HasSuffix(s, suffix) {
+			if Unit(u) == Em && strings.HasSuffix(s, units[Rem]) {
+				continue // "rem", not "em"
+			}
 			s = strings.TrimSpace(strings.TrimSuffix(s, suffix))
 			resolvedUnit = Unit(u)
 			break
